@@ -60,6 +60,15 @@ CHECKS["C19"] = dict(
          "Each generated kernel list costs a numba compile, which bounds the number of cases per run.",
     ref="7/C19")
 
+CHECKS["C20"] = dict(
+    technique="property-based testing (Hypothesis): partition validity predicate + independent recount for histograms; permutation metamorphic relation and closed-form Gaussian mixture reference for KDE",
+    text="Generated training/transform collections with values placed on bin edges, range bounds and far outside; bin_intervals_ must be "
+         "a right-closed gap-free increasing partition of the absolute range, every row an independent count per bin and conserve the "
+         "in-range events. KDE rows are checked for shape, sign, permutation invariance, the Gaussian formula and dependence on "
+         "(bandwidth_, evaluation_grid_) only. Exploration.",
+    note="Training data has >= 2 distinct values strictly inside absolute_range; quantile strategy on non-negative data; KDE with explicit bandwidth.",
+    ref="7/C20")
+
 PENDING_REASON = "check not built yet in this revision of /verif (planned, see DESIGN.md section 7)"
 
 
